@@ -89,6 +89,7 @@ def explore(job):
     neutral = boot.Neutral()
     if "C04" in props:
         contracts.install_lincomb_contract()
+        contracts.install_val_contracts()
     contracts.State.track = "C04" in props
     runs = {p: common.Run(p, LEVEL[p], RULES[p]) for p in props}
     moduli = [recorder.BN254, recorder.BLS381, recorder.C25519]
@@ -125,7 +126,11 @@ def explore(job):
                     contracts.sweep("after statement %d" % i)
 
             contracts.clear()
-            out = G.run_api(prog, inputs, neutral, modulus=modulus, ignore=ignore, between=between, chunks=chunks)
+            toggle = (not ignore) and vkind != "primary" and rnd.random() < 0.5
+            out = G.run_api(prog, inputs, neutral, modulus=modulus, ignore=ignore, between=between, chunks=chunks, toggle=toggle)
+            if toggle:
+                for p in props:
+                    runs[p].count("runs_after_checks_off_and_on_again")
             snap = out.snap
             ncon = len(snap["constraints"])
             done = out.exc is None
@@ -158,7 +163,9 @@ def explore(job):
                 nobj = len(contracts.State.created)
                 R.count("objects_judged", nobj)
                 R.count("contract_evaluations", contracts.State.evaluations)
+                R.count("val_reports_judged", contracts.State.val_evaluations)
                 contracts.State.evaluations = 0
+                contracts.State.val_evaluations = 0
                 mode = ("ignore" if ignore else "checked") + ("/raised" if not done else "")
                 R.case(cell=[t + "|" + mode for t in tags] + ["vec:" + vkind], key=key, nontrivial=nobj > 0)
                 if contracts.State.mismatches:
@@ -379,6 +386,7 @@ def suite_under_monitors(job):
     props = set(job["props"])
     rt = boot.attach()
     contracts.install_lincomb_contract()
+    contracts.install_val_contracts()
     contracts.State.track = True
     runs = {p: common.Run(p, LEVEL[p], RULES[p]) for p in props}
     import pytest
@@ -424,6 +432,7 @@ def examples_under_monitors(job):
     props = set(job["props"])
     rt = boot.attach()
     contracts.install_lincomb_contract()
+    contracts.install_val_contracts()
     contracts.State.track = True
     neutral = boot.Neutral()
     runs = {p: common.Run(p, LEVEL[p], RULES[p]) for p in props}
